@@ -12,7 +12,7 @@
 // `tv`, `csem`, `nx`, `nwf`, `nbelow` are opaque: exec proofs see them only through "re-fuelling" lemmas over the
 // constructors `cmk` / `ct` and the tag operations `cxor` / `cflip` / `cwith` (contracts/README.md); the exec code lives in
 // several sibling modules because each module has exactly one `broadcast use` and the lemma sets differ.
-#![feature(panic_internals, sized_hierarchy)] // only for the `assert_eq!` specification below
+#![feature(panic_internals, sized_hierarchy, allocator_api)] // only for the `assert_eq!` specification below
 #![allow(unused_imports, dead_code, unused_variables, unused_mut, unused_parens, unused_braces, noop_method_call, unreachable_patterns)]
 use vstd::prelude::*;
 use std::borrow::Borrow;
@@ -1372,6 +1372,17 @@ impl<'a, M: Manager> EdgeDropGuard<'a, M> {
     pub fn into_edge(self) -> (r: M::Edge) ensures r.cv() == self.edge.cv() { self.edge }
     pub fn borrowed(&self) -> (r: Borrowed<'_, M::Edge>) ensures r.cv() == self.edge.cv() { &self.edge }
 }
+/// stub of oxidd_core::util::EdgeVecDropGuard (a Vec of owned edges; Deref/DerefMut to the Vec are modelled by `push`)
+pub struct EdgeVecDropGuard<'a, M: Manager> { pub manager: &'a M, pub vec: Vec<M::Edge> }
+impl<'a, M: Manager> EdgeVecDropGuard<'a, M> {
+    pub open spec fn view(&self) -> Seq<M::Edge> { self.vec@ }
+    pub fn push(&mut self, e: M::Edge) ensures final(self)@ == old(self)@.push(e), { self.vec.push(e) }
+}
+/// `Vec::resize_with` (std): truncates or extends with values produced by `f`
+pub assume_specification<T, A: std::alloc::Allocator, F: FnMut() -> T> [Vec::<T, A>::resize_with] (v: &mut Vec<T, A>, new_len: usize, f: F)
+    ensures final(v)@.len() == new_len,
+        forall|i: int| 0 <= i < new_len && i < old(v)@.len() ==> final(v)@[i] == old(v)@[i],
+        forall|i: int| old(v)@.len() <= i < new_len ==> f.ensures((), #[trigger] final(v)@[i]);
 impl<'a, M: Manager> std::ops::Deref for EdgeDropGuard<'a, M> {
     type Target = M::Edge;
     fn deref(&self) -> (r: &M::Edge) ensures r.cv() == self.edge.cv() { &self.edge }
@@ -2360,6 +2371,31 @@ mod apply_rec_s {
 use super::*;
 use super::apply_rec::*;
 broadcast use {ce_core, ce_tree, subst_lemmas};
+// ---------- substitute_prepare: the two loop bodies, outlined verbatim (rule R16; the iteration glue itself is not verified) ----------
+//@fn file=crates/oxidd-rules-bdd/src/complement_edge/apply_rec.rs path=fn:substitute_prepare loopbody=0 looppat=(v,~r) rename=substitute_prepare__loop0 props=C04
+//@header
+fn substitute_prepare__loop0<'a, M>(manager: &'a M, subst: &mut Vec<Option<Borrowed<'a, M::Edge>>>, v: VarNo, r: Borrowed<'a, M::Edge>)
+where M: Manager<Terminal = BCDDTerminal, EdgeTag = EdgeTag>, M::Edge: 'a, M::InnerNode: HasLevel,
+//@spec
+    requires (v as int) < manager.num_levels_spec(),
+    ensures ({ let level = manager.var_to_level_spec(v as int);
+        // the replacement is recorded at the level of `v`, nothing recorded before is lost
+        &&& final(subst)@.len() == (if level < old(subst)@.len() { old(subst)@.len() as int } else { level + 1 })
+        &&& final(subst)@[level] == Some(r)
+        &&& forall|i: int| 0 <= i < old(subst)@.len() && i != level ==> final(subst)@[i] == old(subst)@[i] }),
+//@end
+//@fn file=crates/oxidd-rules-bdd/src/complement_edge/apply_rec.rs path=fn:substitute_prepare loopbody=1 looppat=(level,~e) rename=substitute_prepare__loop1 tail=Ok(()) props=C04,C14
+//@header
+fn substitute_prepare__loop1<'a, M>(manager: &'a M, res: &mut EdgeVecDropGuard<'a, M>, level: usize, e: Option<Borrowed<'a, M::Edge>>) -> (r: AllocResult<()>)
+where M: Manager<Terminal = BCDDTerminal, EdgeTag = EdgeTag>, M::Edge: 'a, M::InnerNode: HasLevel,
+//@spec
+    requires (level as int) < manager.num_levels_spec() <= u32::MAX as int,
+    ensures r is Ok ==> final(res)@.len() == old(res)@.len() + 1
+        && (forall|i: int| 0 <= i < old(res)@.len() ==> final(res)@[i] == old(res)@[i])
+        // a listed level maps to its replacement, an unlisted level to the function of the variable AT THAT LEVEL
+        && (match e { Some(x) => final(res)@[old(res)@.len() as int].cv() == x.cv(),
+                      None => tv(final(res)@[old(res)@.len() as int].cv()) == mk(level as u32, Tree::Leaf(true), Tree::Leaf(false)) }),
+//@end
 //@fn file=crates/oxidd-rules-bdd/src/complement_edge/apply_rec.rs path=fn:substitute nodecr props=C04,C06 vis=pub
 //@spec
     requires edge_ok::<M::Edge>(), okc(f.cv(), manager.num_levels_spec()), all_ok(subst@, manager.num_levels_spec()),
